@@ -11,6 +11,7 @@ import (
 	"sort"
 	"strings"
 	"testing"
+	"time"
 
 	"github.com/koron-go/z80/verifsim/world"
 )
@@ -54,6 +55,39 @@ type Env struct {
 	ExtraEvals uint64
 	NTPoints   uint64
 	Quiet      bool // statistics are not collected (shrinking / replay)
+}
+
+// Private returns an environment with statistics of its own (same log capture, same mode) for an
+// execution on a goroutine that may never come back; Merge adds them once it has.
+func (e *Env) Private() *Env {
+	p := NewEnv()
+	p.T, p.Race, p.LogBuf, p.Quiet = e.T, e.Race, e.LogBuf, e.Quiet
+	return p
+}
+
+// Merge adds the statistics of a private environment.
+func (e *Env) Merge(p *Env) {
+	e.Steps += p.Steps
+	e.Ticks += p.Ticks
+	e.SimNS += p.SimNS
+	for k, v := range p.Fired {
+		e.Fired[k] += v
+	}
+	for k, v := range p.Classes {
+		e.Classes[k] += v
+	}
+	for k, v := range p.Known {
+		if _, ok := e.Known[k]; !ok {
+			e.Known[k] = v
+		}
+	}
+	for k, v := range p.KnownN {
+		e.KnownN[k] += v
+	}
+	e.NonTrivial = e.NonTrivial || p.NonTrivial
+	e.Waive = e.Waive || p.Waive
+	e.ExtraEvals += p.ExtraEvals
+	e.NTPoints += p.NTPoints
 }
 
 // NewEnv returns an empty environment.
@@ -167,7 +201,8 @@ func Minimise(p Prop, sc interface{}, first *Violation, env *Env, maxExec int) (
 	q.Fired, q.Classes, q.Known, q.KnownN = map[string]uint64{}, map[string]uint64{}, map[string]string{}, map[string]uint64{}
 	cur, curV := sc, first
 	n := 0
-	if first.Oracle == "hang" {
+	t0 := time.Now()
+	if first.Oracle == "hang" || strings.Contains(first.Detail, "of real time") {
 		maxExec = 0 // every still-hanging candidate would cost a full watchdog period
 	}
 	for progress := true; progress && n < maxExec; {
@@ -182,6 +217,11 @@ func Minimise(p Prop, sc interface{}, first *Violation, env *Env, maxExec int) (
 				cur, curV = cand, v
 				progress = true
 				break
+			}
+			if (v != nil && strings.Contains(v.Detail, "of real time")) || time.Since(t0) > 2*time.Minute {
+				// a candidate ran into a real-time watchdog (it has left a goroutine spinning behind), or
+				// minimising takes too long: report what there is. The file is smaller or equal, never wrong.
+				return cur, curV, n
 			}
 		}
 	}
@@ -204,7 +244,10 @@ func Fingerprint(sc interface{}) uint64 {
 // violation).
 func panicOracle(stack []byte) string {
 	lines := strings.Split(string(stack), "\n")
-	seenPanic := false
+	// The frames that matter are those below the ORIGINAL panic: a deferred function of the harness that
+	// recovers, finds the value is not its own sentinel and panics again puts a second "panic(" - and its
+	// own frame - on top of them. So the verdict is taken below the last panic marker of the dump.
+	verdict, seenPanic := "", false
 	for _, l := range lines {
 		if strings.HasPrefix(l, "\t") {
 			continue // file:line
@@ -212,19 +255,22 @@ func panicOracle(stack []byte) string {
 		if strings.HasPrefix(l, "panic(") || strings.HasPrefix(l, "runtime.") {
 			if strings.HasPrefix(l, "panic(") || strings.Contains(l, "runtime.goPanic") || strings.Contains(l, "runtime.panic") || strings.Contains(l, "runtime.sigpanic") {
 				seenPanic = true
+				verdict = ""
 			}
 			continue
 		}
-		if !seenPanic {
-			continue // frames of the deferred recover itself
+		if !seenPanic || verdict != "" {
+			continue // frames of the deferred recover itself / already decided for this panic
 		}
 		if strings.HasPrefix(l, "github.com/koron-go/z80/verifsim/") {
-			return "harness"
-		}
-		if strings.HasPrefix(l, "github.com/koron-go/z80") {
-			return "panic"
+			verdict = "harness"
+		} else if strings.HasPrefix(l, "github.com/koron-go/z80") {
+			verdict = "panic"
 		}
 		// any other package (std library called from either side): keep looking down the stack
 	}
-	return "panic"
+	if verdict == "" {
+		verdict = "panic"
+	}
+	return verdict
 }
